@@ -48,7 +48,7 @@ def floors(tier):
 
 def plan(tier, seed):
     q = tier == "quick"
-    specs = [{"kind": "longlcd", "timeouts": [1] if q else [0, 1, 2]}]
+    specs = [{"kind": "longlcd", "timeouts": [0, 1] if q else [0, 1, 2]}]
     n = 10 if q else 40
     for i in range(n):
         specs.append({"kind": "dense", "isa": "x86" if i % 3 != 2 else "aarch64", "below": i % 2 == 0, "cases": 1 if q else 3})
@@ -348,6 +348,9 @@ def one_run(probes, arch, fn, timeout, R, case, reference=None, expect_complete=
             f = f.f_back
         if any("simple_path" in n or "simple_edge_path" in n for n in names):
             raise SearchNotStopped("still enumerating paths %.1fs after the analysis started" % (time.time() - t0))
+        if "check_for_loopcarried_dep" in names and [c for c in children() if c not in before]:
+            # the parent is still inside the dependency search, waiting for worker processes that are still running
+            raise SearchNotStopped("still waiting for searching worker processes %.1fs after the analysis started" % (time.time() - t0))
         raise CaseTimeout()
 
     if timeout >= 0:
@@ -384,13 +387,19 @@ def one_run(probes, arch, fn, timeout, R, case, reference=None, expect_complete=
         time.sleep(1.0)
         left = [c for c in children() if c not in before]
     if left:
-        R.violation("worker-left-running", "%d child process(es) still alive after the analysis returned (timeout %s)" % (len(left), timeout), case)
+        if not aborted:  # after an abort by the watchdog the workers are its leftovers, not the analysis'
+            R.violation("worker-left-running", "%d child process(es) still alive after the analysis returned (timeout %s)" % (len(left), timeout), case)
         for c in left:
             try:
                 os.kill(c, 9)
             except OSError:
                 pass
     if aborted:
+        for c in [c for c in children() if c not in before]:
+            try:
+                os.kill(c, 9)
+            except OSError:
+                pass
         R.violation("timeout-ignored/" + case.get("path", "?"), "timeout %ss: %s (%d paths so far) - the search does not look at the timeout"
                     % (timeout, aborted, probes.paths), case)
         R.case(digest([case.get("kernel_id"), timeout]), nontrivial=True)
